@@ -81,7 +81,8 @@ inductive Micro (U : Universe) (Vp : Nat → Nat → Nat → Prop) : State → S
       s.tree.find (byHash b.parent) = some pn →
       Micro U Vp s { s with tree := s.tree.addChild (byHash b.parent) (increase s.cfg.epoch (newCkpt pn.ckpt) b) }
   /-- `Checkpoint.AddVerification`: one signature slot enters the tree -/
-  | addSig {s} (tgt order src srcH : Nat) (tn : Tree) :
+  | addSig {s} (tgt order src srcH : Nat) (tn : Tree) (shd : Header) :
+      s.header src = some shd → shd.height = srcH →
       s.tree.find (byHash tgt) = some tn → order < s.cfg.nVal →
       srcH % s.cfg.epoch = 0 → tn.ckpt.height % s.cfg.epoch = 0 → srcH < tn.ckpt.height →
       spanOK s.tree order srcH tn.ckpt.height = true →
@@ -206,7 +207,7 @@ theorem Micro.preserves_HU {s s' : State} (h : HU U s.tree) (m : Micro U Vp s s'
     rcases Tree.mem_addChild _ _ _ _ hx with hx | rfl
     · exact h x hx
     · simp [increase, hb.2.2]
-  | addSig tgt o src srcH tn hf =>
+  | addSig tgt o src srcH tn shd _ _ hf =>
     intro x hx
     rcases Tree.mem_update hx with hx | ⟨r, hr, rfl⟩
     · exact h x hx
@@ -267,7 +268,7 @@ theorem addVerification_micro (s : State) (t : Tree) (c : List CkptRec) (tgt o s
     -- step 1: the signature
     have m1 : Micro U Vp (s.wt t c) (s.wt (t.update (byHash tgt)
         (fun c => { c with sup := addSupLink c.sup src srcH { slot := o, valid := true } })) c) :=
-      Micro.addSig (s := s.wt t c) tgt o src srcH tn hfind ho h1 h2 h3 hspan hv
+      Micro.addSig (s := s.wt t c) tgt o src srcH tn hd hhd (hsrcH hd hhd) hfind ho h1 h2 h3 hspan hv
     obtain ⟨tn1, hfind1, htn1⟩ := Tree.find_update_ckpt (f := fun c => { c with sup := addSupLink c.sup src srcH { slot := o, valid := true } })
       hfind (by have := Tree.find_pred hfind; simpa [byHash] using this)
     rw [hfind1] at h
